@@ -43,15 +43,22 @@ theorem C03_ans_v1_fault_example :
       = .stop .fault := by
   set_option maxRecDepth 100000 in decide
 
-/-- version 1 allocates from the forged size alone: `sz + sz/8` bytes with `sz < 2^27` whatever the
-block length (here 2000 + 250 bytes for a `Read` of 40 bytes whose `max(2·len, 256)` is 256).  The
-largest value is `2^27 - 1 + (2^27 - 1)/8 ≈ 144 MiB` per decoder. -/
-theorem C03_ans_v1_alloc_example :
-    (read ⟨0, 16384, 1⟩ (fresh 0) (exHdr ++ writeVarInt 2000 ++ natBits 0 32 ++ natBits 0 32) 40).bufSz = 2250 := by
+/-- version 1 used to allocate `sz + sz/8` bytes from the forged size alone (finding: 144 MiB per
+decoding task for a 52-byte stream).  Since the repair `decodeChunkV1` rejects `sz > max(2·len, 256)`
+before reading the states: the same forged input (size 2000 for a `Read` of 40 bytes) now ends in
+the clean error "incorrect chunk size" -/
+theorem C03_ans_v1_forged_size_rejected :
+    (read ⟨0, 16384, 1⟩ (fresh 0) (exHdr ++ writeVarInt 2000 ++ natBits 0 32 ++ natBits 0 32) 40).cls = .ret 0 true := by
   set_option maxRecDepth 100000 in decide
 
-theorem C03_ans_v1_alloc_example_cls :
-    (read ⟨0, 16384, 1⟩ (fresh 0) (exHdr ++ writeVarInt 2000 ++ natBits 0 32 ++ natBits 0 32) 40).cls = .stop .eos := by
+/-- and nothing has been allocated for it -/
+theorem C03_ans_v1_forged_size_no_alloc :
+    (read ⟨0, 16384, 1⟩ (fresh 0) (exHdr ++ writeVarInt 2000 ++ natBits 0 32 ++ natBits 0 32) 40).bufSz = 0 := by
+  set_option maxRecDepth 100000 in decide
+
+/-- the largest accepted size, `max(2·40, 256) = 256`, allocates `256 + 32` bytes (then the input ends) -/
+theorem C03_ans_v1_boundary_size :
+    (read ⟨0, 16384, 1⟩ (fresh 0) (exHdr ++ writeVarInt 256 ++ natBits 0 32 ++ natBits 0 32) 40).bufSz = 288 := by
   set_option maxRecDepth 100000 in decide
 
 end Kanzi.C03
